@@ -22,6 +22,8 @@ einen Eintrag, und erstellen sie so:
 	"ein Eintrag mit name gleich <name>" oder
 	"ein Eintrag mit werte gleich <werte>"
 
+Wir definieren eine Akte als einen Eintrag.
+
 Der Text c08_global ist "gg".
 Die Zahlen Liste c08_globalliste ist eine Liste, die aus 7, 8 besteht.
 
@@ -48,6 +50,8 @@ var helpers = []helper{
 	{"c08_valrefl", []ddp.Param{{Name: "v", Type: "Zahlen Liste"}, {Name: "r", Type: "Zahlen Listen Referenz"}, {Name: "x", Type: "Zahl"}}, "eine Zahl", "Speichere x in r an der Stelle 1.\n\tGib v an der Stelle 1 zurück."},
 	{"c08_valrefelem", []ddp.Param{{Name: "v", Type: "Zahlen Liste"}, {Name: "r", Type: "Zahlen Referenz"}, {Name: "x", Type: "Zahl"}}, "eine Zahl", "Speichere x in r.\n\tGib v an der Stelle 1 zurück."},
 	{"c08_valreffield", []ddp.Param{{Name: "v", Type: "Eintrag"}, {Name: "r", Type: "Text Referenz"}, {Name: "c", Type: "Buchstabe"}}, "einen Text", "Speichere c in r an der Stelle 1.\n\tGib name von v zurück."},
+	{"c08_valrefelemdef", []ddp.Param{{Name: "v", Type: "Akte"}, {Name: "r", Type: "Zahlen Referenz"}, {Name: "x", Type: "Zahl"}}, "eine Zahl", "Speichere x in r.\n\tGib (werte von (v als Eintrag)) an der Stelle 1 zurück."},
+	{"c08_valreffielddef", []ddp.Param{{Name: "v", Type: "Akte"}, {Name: "r", Type: "Text Referenz"}, {Name: "c", Type: "Buchstabe"}}, "einen Text", "Speichere c in r an der Stelle 1.\n\tGib name von (v als Eintrag) zurück."},
 	{"c08_touchglobal", []ddp.Param{{Name: "v", Type: "Text"}, {Name: "c", Type: "Buchstabe"}}, "einen Text", "Speichere c in c08_global an der Stelle 1.\n\tGib v zurück."},
 	{"c08_touchgloballiste", []ddp.Param{{Name: "v", Type: "Zahlen Liste"}, {Name: "x", Type: "Zahl"}}, "eine Zahl", "Speichere x in c08_globalliste an der Stelle 1.\n\tGib v an der Stelle 1 zurück."},
 }
@@ -100,6 +104,8 @@ var templates = []tmpl{
 	{"l_same_by_value_and_reference", "zahl", mkL + "Gib (c08_valrefl a a v) zurück.", "orig", true},
 	{"l_by_value_and_element_reference", "zahl", mkL + "Gib (c08_valrefelem a (a an der Stelle 1) v) zurück.", "orig", true},
 	{"field_by_value_and_field_reference", "text", mkA + "Der Eintrag e ist ein Eintrag mit name gleich a.\n\tGib (c08_valreffield e (name von e) c) zurück.", "orig", true},
+	{"l_typedef_by_value_and_element_reference", "zahl", mkL + "Der Eintrag e ist ein Eintrag mit werte gleich a.\n\tDie Akte k ist e als Akte.\n\tGib (c08_valrefelemdef k (werte von (k als Eintrag) an der Stelle 1) v) zurück.", "orig", true},
+	{"field_typedef_by_value_and_field_reference", "text", mkA + "Der Eintrag e ist ein Eintrag mit name gleich a.\n\tDie Akte k ist e als Akte.\n\tGib (c08_valreffielddef k (name von (k als Eintrag)) c) zurück.", "orig", true},
 	{"l_global_by_value", "zahl", "Speichere z0 in c08_globalliste an der Stelle 1.\n\tGib (c08_touchgloballiste c08_globalliste v) zurück.", "orig", true},
 	{"same_variable_as_two_references", "zahl", "Die Zahl x ist z0.\n\tGib (c08_two x x v) zurück.", "written", true},
 	{"same_list_as_two_references", "zahl", mkL + "Gib (c08_twol a a v) zurück.", "written", true},
